@@ -237,6 +237,7 @@ def validate(chk, traces, pid):
                 tool_error("driver/specification mismatch: %s" % json.dumps(d))
     # session-level keys
     others = {}
+    cache = {}
     for r in res:
         for d in r["diags"]:
             if d.get("prop") != pid:
@@ -244,7 +245,13 @@ def validate(chk, traces, pid):
                 continue
             w = d["what"]
             sid = w.get("session")
-            evs = [json.loads(x) for x in open(r["trace"])]
+            if len(chk.violations) > 200:
+                chk.violations.append(chk.violations[-1])       # only counted
+                continue
+            if r["trace"] not in cache:
+                cache.clear()
+                cache[r["trace"]] = [json.loads(x) for x in open(r["trace"])]
+            evs = cache[r["trace"]]
             sess, cur = [], None
             for e in evs:
                 if e["ev"] == "Session":
